@@ -221,6 +221,18 @@ func (c *compiler) IntegerNode(node *ast.IntegerNode) {
 		return
 	}
 
+	if t.PkgPath() != "" && reflect.TypeOf(node.Value).ConvertibleTo(t) {
+		// A type defined from a numeric one (type Celsius float64): the
+		// literal takes that type, not only its kind.
+		switch t.Kind() {
+		case reflect.Float32, reflect.Float64,
+			reflect.Int, reflect.Int8, reflect.Int16, reflect.Int32, reflect.Int64,
+			reflect.Uint, reflect.Uint8, reflect.Uint16, reflect.Uint32, reflect.Uint64:
+			c.emitPush(reflect.ValueOf(node.Value).Convert(t).Interface())
+			return
+		}
+	}
+
 	switch t.Kind() {
 	case reflect.Float32:
 		c.emitPush(float32(node.Value))
